@@ -30,7 +30,15 @@ theorem tie_stmt_adaptation_field_length (p : Bytes) :
 theorem tie_stmt_content_offset (p : Bytes) : PacketGen.content_offset (pk p) = Packet.contentOffset p := by
   unfold PacketGen.content_offset Packet.contentOffset
   rw [tie_stmt_adaptation_field_length]
-  rfl
+  show (byteAt p 3 >>= _) = (byteAt p 3 >>= _)
+  cases byteAt p 3 with
+  | panic m => rfl
+  | ok b3 =>
+    show (if _ then _ else _) = (if _ then _ else _)
+    cases Packet.hasAf b3 <;>
+      simp only [ADAPTATION_FIELD_OFFSET, FIXED_HEADER_SIZE, Bool.not_true, Bool.not_false, Bool.false_eq_true,
+        if_true, if_false, R.pure_eq, bind_ok_eta] <;>
+      try (first | rfl | (cases Packet.afLen p <;> rfl))
 
 theorem tie_stmt_mk_payload (p : Bytes) :
     PacketGen.mk_payload (pk p) = rmap (Option.map (sliceOfRange p)) (Packet.mkPayload p) := by
@@ -64,7 +72,7 @@ theorem tie_stmt_payload (p : Bytes) :
   | panic m => rfl
   | ok b3 =>
     simp only [R.ok_bind, R.pure_eq, bind_ok_eta]
-    cases Packet.hasPayload b3 <;> simp [rmap_ok]
+    cases Packet.hasPayload b3 <;> simp [rmap_ok, Bool.not_true, Bool.not_false]
 
 theorem tie_stmt_mk_af (p : Bytes) (len : Nat) :
     PacketGen.mk_af (pk p) len = rmap (sliceOfRange p) (Packet.mkAf p len) := by
